@@ -40,8 +40,8 @@ CASE_TIMEOUT = 10
 RULE = (
     "comp stream: random dependency shapes of 1-5 harness components (0-3 inputs / 0-3 outputs each, links to any "
     "output incl. own; link layouts: direct, behind one Scale, behind a chain of two, ONE Scale instance shared by "
-    "several inputs, dead-end adapters on outputs, time delay adapters DelayFixed / DelayToPull / one shared DelayFixed on "
-    "pulled links with staggered start times), infos from constructor / try_connect arguments with random "
+    "several inputs, dead-end adapters on outputs, time delay adapters DelayFixed / DelayToPull / one shared DelayFixed, push-based "
+    "AvgOverTime / SumOverTime / LinearTime on pulled links with staggered start times and explicit earlier start_time), infos from constructor / try_connect arguments with random "
     "dependencies on own in_infos, in_data, out_infos / transfer rules FromInput, FromOutput, FromValue; initial "
     "pulls on a random subset of inputs; data provision depending on pulled data (rings, blocked pairs, rings with "
     "one breaker); producers starting later than the composition; static outputs; cache on/off; dangling outputs; "
@@ -70,6 +70,10 @@ ASSUMPTIONS = [
 ]
 
 DAY = 86400 * 10**6
+DELAY_VIAS = ("dfixed", "dpull", "sdfixed0")
+# push-based time adapters (one per link): they buffer every publication of the producer and answer the consumer's
+# initial pull for the composition start from their buffer
+PUSH_VIAS = ("avg", "avgstep", "sum", "sumpt", "linear")
 STAT = {"CONNECTING": "CONNECTING", "CONNECTING_IDLE": "CONNECTING_IDLE", "CONNECTED": "CONNECTED",
         "INITIALIZED": "INITIALIZED"}
 
@@ -142,7 +146,7 @@ def _gen_comp(rng, malformed=False):
             comps[k]["ins"].append(len(ins))
             vias = ["direct", "direct", "direct", "scale", "chain", "shared0", "shared0", "shared1"]
             if not outs[src]["static"]:
-                vias += ["dfixed", "dfixed", "dpull", "sdfixed0", "sdfixed0"]
+                vias += ["dfixed", "dfixed", "dpull", "sdfixed0", "sdfixed0", "avg", "avg", "avgstep", "sum", "sum", "linear"]
             ins.append(_inp(src, static=outs[src]["static"], via=rng.choice(vias)))
     # fill in the specs
     for k in range(n):
@@ -231,6 +235,8 @@ def _gen_comp(rng, malformed=False):
             if not (malformed and rng.random() < 0.15):
                 sp["prov_data"] = [deps(excl_out=None, p=rng.choice([0.0, 0.15, 0.4])), 10 + o]
     case = {"kind": "comp", "start": start, "auto_start": rng.random() < 0.3, "ins": ins, "outs": outs, "comps": comps}
+    if not case["auto_start"] and rng.random() < 0.15:
+        case["start"] = start - rng.choice([1, DAY])   # connect(start_time=...) earlier than every component
     rng.shuffle(case["comps"])
     return case
 
@@ -412,6 +418,12 @@ def _corpus():
     for via_a, via_b in (("dfixed", "dfixed"), ("dpull", "dpull"), ("sdfixed0", "sdfixed0"), ("dfixed", "direct")):
         for times in ([0, 4 * DAY, 0, 9 * DAY], [9 * DAY, 4 * DAY, 9 * DAY, 0], [0, 0, 0, 0]):
             cs += _perms(_delay_family(via_a, via_b, times), limit=24 if via_a == "sdfixed0" else 6)
+    # seeded/C06_k: push-based time adapters on pulled links; the producer publishes twice (own start later than the
+    # composition start / explicit earlier start_time): the initial pull for the composition start hits the FIRST of
+    # two buffered entries and must deliver the producer's initial value
+    for via in PUSH_VIAS:
+        for times, start in (([4 * DAY, 0, 0], 0), ([0, 0, 4 * DAY], 0), ([0, 0, 0], 0), ([DAY, DAY, DAY], 0), ([2 * DAY, DAY, 3 * DAY], 5)):
+            cs += _perms(_push_family(via, times, start))
     # seeded/C06_f: a complete transfer followed by a rule overwriting a metadata field must not touch the source slot
     for extra in ([["meta", "units", "mm"]], [["meta", "tag", "stored water"]],
                   [["meta", "units", "mm"], ["meta", "tag", "stored water"]], []):
@@ -434,6 +446,16 @@ def _delay_family(via_a, via_b, times):
                     _inp(1, own=tl, pull=True, via=via_a if via_a != "sdfixed0" else "dfixed")],
             "outs": [_out(prov_info=[[], ts], prov_data=[[], 10]), _out(prov_info=[[], tm], prov_data=[[["pull", 0]], 11])],
             "comps": [_comp([], [0], ts), _comp([0], [1], tm), _comp([1], [], tsd), _comp([2], [], tl)]}
+
+
+def _push_family(via, times, start):
+    """Source.Out -> Mid.In (pulled, behind a push-based time adapter); Mid.State -> Last.In (same); explicit start."""
+    ts, tm, tl = times
+    un = via == "sumpt"
+    return {"kind": "comp", "start": start, "auto_start": False,
+            "ins": [dict(_inp(0, own=tm, pull=True, via=via), units_none=un), dict(_inp(1, own=tl, pull=True, via=via), units_none=un)],
+            "outs": [_out(prov_info=[[], ts], prov_data=[[], 10]), _out(prov_info=[[], tm], prov_data=[[["pull", 0]], 11])],
+            "comps": [_comp([], [0], ts), _comp([0], [1], tm), _comp([1], [], tl)]}
 
 
 def _meta_family(extra):
@@ -596,7 +618,13 @@ class HC(fm.TimeComponent):
 
 
 def _payload(d):
-    return int(round(fin.scalar_of(d)))
+    try:
+        v = fin.scalar_of(d)
+        if v != v or abs(v) > 4000:
+            return 4998
+        return int(round(v))
+    except Exception:  # noqa  (e.g. an object array holding None)
+        return 4998
 
 
 def _t_or_nominal(info, nominal, static):
@@ -623,7 +651,6 @@ def _nominal_out(sp):
     return -2
 
 
-DELAY_VIAS = ("dfixed", "dpull", "sdfixed0")
 
 
 def _is_delay(via):
@@ -633,11 +660,18 @@ def _is_delay(via):
 def _evicted(case, o, ins_obs):
     """Output._clear_data: once EVERY pinged end point of the output has pulled, entries older than the oldest
     request are dropped.  During connect plain links request the composition start, links with a time delay adapter
-    request the producer's start (the adapter clamps to it), so the entry for the composition start goes exactly when
-    all end points of the output sit behind delay adapters and all of them have pulled."""
+    request the producer's start (the adapter clamps to it), push-based time adapters pull at every publication, so
+    the entry for the composition start goes exactly when every end point of the output is a push-based adapter or sits
+    behind a delay adapter and has pulled."""
     mine = [i for i, isp in enumerate(case["ins"]) if isp["src"] == o]
-    return bool(mine) and all(_is_delay(case["ins"][i]["via"]) and case["ins"][i]["pull"] and ins_obs[i][1] is not None
-                              for i in mine)
+
+    def late(i):
+        isp = case["ins"][i]
+        if isp["via"] in PUSH_VIAS:      # the adapter itself is the end point and pulls at every push
+            return True
+        return _is_delay(isp["via"]) and isp["pull"] and ins_obs[i][1] is not None
+
+    return bool(mine) and all(late(i) for i in mine)
 
 
 def _link_all(case, out_obj, in_obj):
@@ -656,6 +690,12 @@ def _link_all(case, out_obj, in_obj):
                 shared[key] = fm.adapters.Scale(1.0) if via.startswith("shared") else fm.adapters.DelayFixed(fin.D(DAY))
                 out >> shared[key]
             shared[key] >> inp
+        elif via in PUSH_VIAS:
+            ada = {"avg": lambda: fm.adapters.AvgOverTime(), "avgstep": lambda: fm.adapters.AvgOverTime(step=0.5),
+                   "sum": lambda: fm.adapters.SumOverTime(per_time=False),
+                   "sumpt": lambda: fm.adapters.SumOverTime(per_time=True, initial_interval=timedelta(seconds=1)),
+                   "linear": lambda: fm.adapters.LinearTime()}[via]()
+            out >> ada >> inp
         elif via == "dfixed":
             out >> fm.adapters.DelayFixed(fin.D([1, DAY, 3 * DAY][i % 3])) >> inp
         elif via == "dpull":
@@ -999,7 +1039,12 @@ def _meta_flow(case, key):
             return UNKNOWN
         if req == UNKNOWN:
             return UNKNOWN
-        return req if req != ABSENT else outv(sp["src"], stack | {("i", i)})
+        if req != ABSENT:
+            return req
+        up = outv(sp["src"], stack | {("i", i)})
+        if key == "units" and sp["via"] == "sumpt":      # SumOverTime(per_time=True) multiplies the units by time
+            return "second" if up == "" else UNKNOWN
+        return up
 
     return inv, outv
 
@@ -1184,6 +1229,8 @@ def distribution(cases, obss):
             a["via"].startswith("shared") and b["via"] == a["via"] and a["src"] == b["src"]
             for x, a in enumerate(c["ins"]) for y, b in enumerate(c["ins"]) if x < y)
         feats["spare_adapter"] += any(o.get("spare") for o in c["outs"])
+        feats["push_time_adapter_on_pulled_link"] += any(i["via"] in PUSH_VIAS and i["pull"] for i in c["ins"])
+        feats["explicit_earlier_start"] += all(k["time"] > c["start"] for k in c["comps"])
         feats["delay_adapter_on_pulled_link"] += any(_is_delay(i["via"]) and i["pull"] for i in c["ins"])
         feats["self_link"] += any(c["ins"][i]["src"] in k["outs"] for k in c["comps"] for i in k["ins"])
     rounds = Counter(min(len(o["events"]) // max(1, len(c["comps"])), 8) for c, o in zip(cases, obss) if c["kind"] == "comp" and "events" in o)
